@@ -3,7 +3,7 @@
    Only statements here; every proof is [exact <lemma of Proofs/C17*.v>].
    find_child_and_pathstripped_message, add_resource, remove_resource, expand_upa are GENERATED from aiocoap/resource.py
    on every check (Gen/resource_site.v). *)
-From Verif Require Import Lib.Py Lib.Tactics Model.C17Base Gen.resource_site Model.C17 Proofs.C17 Proofs.C17Reg Proofs.C17Wkc.
+From Verif Require Import Lib.Py Lib.Tactics Model.C17Base Gen.resource_site Model.C17 Proofs.C17 Proofs.C17Reg Proofs.C17Wkc Proofs.C17List.
 Open Scope Z_scope.
 Open Scope list_scope.
 
@@ -180,6 +180,68 @@ Print Assumptions C17_href_through_nested_site.
 Theorem C17_href_of_subsite_root : forall p, p <> [] -> (href_of_path p ++ href_of_path [])%string = href_of_path (p ++ [""%string]).
 Proof. exact href_of_path_root. Qed.
 Print Assumptions C17_href_of_subsite_root.
+
+(* ---- 5b. order and multiplicity: the listing IS the registration-order enumeration of the tree (own resources in dict order, then
+        sub-site after sub-site), hidden resources dropped; each registered resource is enumerated exactly once — in every tree with
+        proper dicts, hence after every add/remove/alias history *)
+Theorem C17_listing_is_enumeration : forall n ls, get_resources_as_linkheader n = Some ls -> ls = filter_map entry_link (entries n).
+Proof. exact listing_is_entries. Qed.
+Print Assumptions C17_listing_is_enumeration.
+Theorem C17_each_resource_enumerated_once : forall n, node_wf n = true -> NoDup (map fst (entries n)).
+Proof. exact entries_nodup. Qed.
+Print Assumptions C17_each_resource_enumerated_once.
+Theorem C17_histories_enumerate_each_resource_once : forall ops, NoDup (map fst (entries (fst (run (NSite [] []) ops)))).
+Proof. exact reachable_entries_nodup. Qed.
+Print Assumptions C17_histories_enumerate_each_resource_once.
+
+(* ---- 5c. listing and routing agree.  Every resource some request path is routed to, unless it hides itself, is listed under the href
+        of exactly that path — in EVERY tree.  Conversely every listed link stems from an entry whose request path is routed to that very
+        resource — provided nothing shadows a sub-site prefix (node_sep: sub-site keys non-empty [O2], not extended by another key of the
+        same site, no resource at [""] inside a nested site).  Without that proviso the converse is false of the code (witness below). *)
+Theorem C17_routable_is_listed : forall n p r d ls, Route n p (TgtRes r) -> get_link_description r = Some d ->
+  get_resources_as_linkheader n = Some ls -> In (href_of_path p, d) ls.
+Proof. exact routable_in_listing. Qed.
+Print Assumptions C17_routable_is_listed.
+Theorem C17_listed_is_routable : forall n ls h d, node_wf n = true -> node_sep false n = true ->
+  get_resources_as_linkheader n = Some ls -> In (h, d) ls ->
+  exists ch r, In (ch, r) (entries n) /\ get_link_description r = Some d /\ h = href_of_path (chain_path ch) /\
+               Route n (chain_path ch) (TgtRes r).
+Proof. exact listed_routable. Qed.
+Print Assumptions C17_listed_is_routable.
+Example C17_listed_is_routable_unconditional_refuted :
+  let n := NSite [(["a"; "b"]%string, RHandler 1 (Some []))] [(["a"%string], NSite [(["b"%string], RHandler 2 (Some []))] [])] in
+  get_resources_as_linkheader n = Some [("/a/b"%string, []); ("/a/b"%string, [])] /\ node_wf n = true /\ node_sep false n = false /\
+  forall t, Route n ["a"; "b"]%string t -> t = TgtRes (RHandler 1 (Some [])).
+Proof.
+  cbv zeta. split; [vm_compute; reflexivity|]. split; [vm_compute; reflexivity|]. split; [vm_compute; reflexivity|].
+  intros t Ht. apply (render_route _ false (new_request ["a"; "b"]%string None) eq_refl) in Ht. vm_compute in Ht. congruence.
+Qed.
+Example C17_separated_nonvacuous :
+  let n := NSite [(["r"%string], RHandler 1 (Some [])); ([], RHandler 2 (Some []))]
+                 [(["s"; "t"]%string, NSite [([], RHandler 3 (Some [])); (["x"; ""]%string, RHandler 4 None)] [(["u"%string], NSite [(["v"%string], RHandler 5 (Some []))] [])])] in
+  node_wf n = true /\ node_sep false n = true /\
+  get_resources_as_linkheader n = Some [("/r", []); ("/", []); ("/s/t/", []); ("/s/t/u/v", [])]%string /\
+  map fst (entries n) = [[["r"]]; [[]]; [["s"; "t"]; []]; [["s"; "t"]; ["x"; ""]]; [["s"; "t"]; ["u"]; ["v"]]]%string.
+Proof. vm_compute. repeat split. Qed.
+
+(* ---- 5d. Site.needs_blockwise_assembly and Site.add_observation look the child up with the same function: they ask exactly the child
+        render would render with, with the same stripped message, and take their default exactly where render answers 4.04 *)
+Theorem C17_locate_same_dispatch_as_render : forall n m,
+  locate n m = match render false n m with LeafExn NotFound => LeafExn KeyError | x => x end.
+Proof. exact locate_render. Qed.
+Print Assumptions C17_locate_same_dispatch_as_render.
+Theorem C17_locate_route : forall n m, uri_path_abbrev m = None ->
+  forall t, Route n (uri_path m) t <-> leaf_target (locate n m) = Some t.
+Proof. exact locate_route. Qed.
+Print Assumptions C17_locate_route.
+Theorem C17_located_same_as_request : forall obs root m q id seen orig uri, uri_path_abbrev m = None ->
+  request false root m q = RHandled id seen orig uri <-> located obs root m = RHandled id seen orig uri.
+Proof. exact located_same_as_request. Qed.
+Print Assumptions C17_located_same_as_request.
+Theorem C17_located_default_when_no_route : forall obs root m, uri_path_abbrev m = None ->
+  (forall t, ~ Route root (uri_path m) t) -> located obs root m = RDefault.
+Proof. exact located_default. Qed.
+Print Assumptions C17_located_default_when_no_route.
 
 (* ---- 6. one RFC 6690 filter query returns exactly the matching subset — unconditionally (every name, every pattern, every list
         of links; since the fix f691489 of the four filter defects this check found).  Matches k v l: some candidate x of l for the
